@@ -1034,6 +1034,9 @@ func (h *H) ReadAt(p []byte, offset int64) (cnt int, err error) {
 	if n.Mode.IsDir() {
 		return 0, linux.EISDIR
 	}
+	if offset < 0 {
+		return 0, linux.EINVAL // as pread(2); the server passes uint64 offsets through as int64
+	}
 	size := n.size()
 	if h.fs.IOHook != nil {
 		lim, herr := h.fs.IOHook("ReadAt", offset, len(p))
@@ -1087,6 +1090,9 @@ func (h *H) WriteAt(p []byte, offset int64) (cnt int, err error) {
 	}
 	if n.Mode.IsDir() {
 		return 0, linux.EISDIR
+	}
+	if offset < 0 || offset > 1<<62 {
+		return 0, linux.EINVAL // as pwrite(2) beyond what a file can hold
 	}
 	if h.fs.IOHook != nil {
 		lim, herr := h.fs.IOHook("WriteAt", offset, len(p))
